@@ -321,9 +321,16 @@ class Ref:
 
     def run(self, instrs):
         """guarded regions (`genter rK` ... `gleave`): inside a region whose condition is not the value 1 nothing is
-        specified (the region is dead: its values are dummies), so every register computed there is `?`"""
+        specified (the region is dead: its values are dummies), so every register computed there is `?`; the same holds
+        between `set ign 1` and `set ign 0` (error checking switched off through pysnark.runtime.ignore_errors): once it is
+        on again the reference is plain Python again"""
         dead = []
+        ign = False
         for ins in instrs:
+            if ins and ins[0] == "set" and len(ins) == 3 and ins[1] == "ign":
+                ign = ins[2] != "0"
+                self.regs.append(("N",)); self.kinds.append("N")
+                continue
             if ins and ins[0] == "genter":
                 try:
                     c = self.regs[int(ins[1][1:])]
@@ -336,7 +343,7 @@ class Ref:
                 if dead: dead.pop()
                 self.regs.append(("N",)); self.kinds.append("N")
                 continue
-            if any(dead):
+            if any(dead) or ign:
                 self.regs.append(UNK); self.kinds.append("?")
                 continue
             try:
